@@ -732,3 +732,75 @@ def replay (repo, module, path, env0, cls=None):
     elif n.kind == 'for':
       for t in _flatten(n.ast.target):
         if isinstance(t, ast.Name): env = _bind_target(t, OPAQUE, env)
+
+# ---------------------------------------------------------------------------
+# reaching definitions of a local name over the CFG, and value provenance
+
+def _defs_of_node (n, name):
+  """does CFG node n (re)define local `name`?  returns the defining (target, value, kind) or None"""
+  a = n.ast
+  if a is None: return None
+  if n.kind == 'for':
+    for tt in _flatten(a.target):
+      if isinstance(tt, ast.Name) and tt.id == name: return (tt, a, 'for')
+    return None
+  if n.kind == 'handler':
+    if getattr(a, 'name', None) == name: return (None, None, 'except')
+    return None
+  if n.kind in ('cond', 'branch', 'def'): return None
+  if isinstance(a, ast.Assign):
+    for t in a.targets:
+      for tt in _flatten(t):
+        if isinstance(tt, ast.Name) and tt.id == name:
+          return (tt, a.value if tt is t else ('elt', a, t, tt), 'assign')
+  elif isinstance(a, ast.AugAssign):
+    if isinstance(a.target, ast.Name) and a.target.id == name: return (a.target, a, 'augassign')
+  elif isinstance(a, ast.AnnAssign) and a.value is not None:
+    if isinstance(a.target, ast.Name) and a.target.id == name: return (a.target, a.value, 'assign')
+  elif isinstance(a, ast.With):
+    for i in a.items:
+      if i.optional_vars is not None:
+        for tt in _flatten(i.optional_vars):
+          if isinstance(tt, ast.Name) and tt.id == name: return (tt, i.context_expr, 'with')
+  elif isinstance(a, (ast.Import, ast.ImportFrom)):
+    for al in a.names:
+      if (al.asname or al.name).split('.')[0] == name: return (None, None, 'import')
+  return None
+
+def reaching_defs (g, name):
+  """{node: set of definition nodes of `name` reaching the node's entry}; the pseudo definition
+  g.entry stands for 'parameter / not assigned yet'"""
+  defn = dict((n, _defs_of_node(n, name)) for n in g.nodes)
+  IN = dict((n, set()) for n in g.nodes); OUT = dict((n, set()) for n in g.nodes)
+  OUT[g.entry] = {g.entry}
+  work = list(g.nodes)
+  while work:
+    n = work.pop()
+    i = set()
+    for p, lab in n.pred: i |= OUT[p]
+    if n is g.entry: i = set()
+    IN[n] = i
+    o = {n} if defn[n] is not None else (set(i) if n is not g.entry else {g.entry})
+    if o != OUT[n]:
+      OUT[n] = o
+      for s, lab in n.succ: work.append(s)
+  return IN, defn
+
+def provenance (g, node, name, _depth=0, _seen=None):
+  """where can the value of local `name` at CFG node `node` come from?  list of
+  (def_node, kind, value) following copies through other locals; kind in
+  'param' (def_node is g.entry) / 'assign' / 'for' / 'augassign' / 'with' / 'except' / 'elt'"""
+  if _seen is None: _seen = set()
+  IN, defn = reaching_defs(g, name)
+  out = []
+  for d in IN[node]:
+    if (d, name) in _seen: continue
+    _seen.add((d, name))
+    if d is g.entry: out.append((d, 'param', None)); continue
+    tt, v, kind = defn[d]
+    if kind == 'assign' and isinstance(v, ast.Name) and _depth < 6:
+      sub = provenance(g, d, v.id, _depth + 1, _seen)
+      if sub: out += sub; continue
+    if kind == 'assign' and isinstance(v, tuple): kind = 'elt'
+    out.append((d, kind, v))
+  return out
